@@ -13,6 +13,7 @@ import (
 
 func init() {
 	vfHarnesses["C08_cut"] = vfH_C08_cut
+	vfHarnesses["C08_cut5"] = vfH_C08_cut5
 	vfHarnesses["C08_append"] = vfH_C08_append
 }
 
@@ -40,11 +41,16 @@ func vfLoadAll(aof *Aof, files []string) (error, [][]byte) {
 	return err, got
 }
 
-func vfH_C08_cut() {
+var vfC08Records = 3
+
+func vfH_C08_cut()  { vfC08Records = 3; vfC08Cut() }
+func vfH_C08_cut5() { vfC08Records = 5; vfC08Cut() }
+
+func vfC08Cut() {
 	env := vfNewEnv(0)
 	aof := env.slock.aof
 	aof.dataDir = vfFSDir()
-	k := vfRange("records", 1, 3)
+	k := vfRange("records", 1, vfC08Records)
 	full := vfAofHeader()
 	var recs [][]byte
 	for i := 0; i < k; i++ {
